@@ -17,7 +17,7 @@ import (
 func init() {
 	register(&Rule{ID: "R-SHORTCUT", Min: 2, Run: ruleShortcut,
 		Doc: "in the functions that derive group keys and output label sets with a labels.Builder, an early return guarded only by the length of the label list never precedes a builder transformation that is guarded by one of the function's flags (without / keep...): Keep() and Del() with no names are not no-ops, so the empty-list shortcut is only valid after the flag-dependent label handling"})
-	register(&Rule{ID: "R-PULLALL", Min: 6, Run: rulePullAll,
+	register(&Rule{ID: "R-PULLALL", Min: 4, Run: rulePullAll,
 		Doc: "an operator that returns a batch has pulled every operand it pulls at all: every return of a non-nil batch is dominated by each child Next() call site of the method (or by the loop/branch decision that controls that call site): operands stay aligned step by step"})
 	register(&Rule{ID: "R-NODECOPY", Min: 1, Run: ruleNodeCopy,
 		Doc: "when the logical plan rebuilds a parser node from an existing node of the same type (two or more fields copied over), it copies every semantic field of that node type (all fields but PosRange and the reference engine's caches): a forgotten field (Without, Timestamp, StartOrEnd ...) silently changes the query"})
@@ -275,9 +275,8 @@ func rulePullAll(p *core.Program) []core.Obligation {
 				}
 				// (a) the pull sits in a loop over the operands and the return comes after that loop
 				ok := false
-				for _, h := range fn.Blocks {
-					inLoop := h.Dominates(pl.Block()) && core.Reaches(pl.Block(), h)
-					if inLoop && core.BlockDominates(h, b) && !(core.Reaches(b, h)) {
+				for h, body := range core.LoopBodies(fn) {
+					if body[pl.Block()] && core.BlockDominates(h, b) && !body[b] {
 						ok = true
 					}
 				}
@@ -670,7 +669,7 @@ func boolParamsOf(fn *ssa.Function, cond ssa.Value) map[*ssa.Parameter]bool {
 }
 
 func init() {
-	register(&Rule{ID: "R-ENDSTICKY", Min: 5, Run: ruleEndSticky,
+	register(&Rule{ID: "R-ENDSTICKY", Min: 3, Run: ruleEndSticky,
 		Doc: "every operator that owns a step cursor and a window end tests `cursor > maxt` and returns the end-of-stream (nil, nil) before it produces anything: the test dominates every batch return, so a stream that has ended stays ended however often Next is called"})
 	mutant(Mutant{Rule: "R-ENDSTICKY", Name: "literal-restarts-after-end", File: "execution/scan/literal_selector.go",
 		Old: "\tif o.currentStep > o.maxt {\n\t\treturn nil, nil\n\t}\n", New: "", Expect: "numberLiteralSelector"})
